@@ -666,7 +666,7 @@ SYSTEMS = [
     C12('c12.closure.sSl', ('s', 'S', 'l'), W0, 2.0, 4, None, max_views=1, init_snap=True, T_writes=(), tcap_t=180),
     # the same universes with two written chemicals, T writes, two views, cap 3: depth-bounded
     C12('c12.deep.lLg', ('l', 'L', 'g'), W1, 3.0, 3, 6, max_views=2, init_snap=True, tcap_t=60),
-    C12('c12.deep.sSl', ('s', 'S', 'l'), W1, 3.0, 3, 6, max_views=2, init_snap=True, tcap_t=60),
+    C12('c12.deep.sSl', ('s', 'S', 'l'), W1, 3.0, 3, 6, max_views=2, init_snap=True, tcap_t=120),
     C12('c12.deep.gls', ('g', 'l', 's'), W1, 3.0, 3, 6, max_views=2, init_snap=True, tcap_t=60),
     # restore / copy a saved state onto every other state: all ordered pairs (current, saved) of grid configurations
     C12('c12.restore4', ('g', 'l', 's', 'L'), W1, 8.0, 1, 2, configs='pairs', max_views=1, max_snaps=0, copy_like=True,
@@ -674,5 +674,5 @@ SYSTEMS = [
     C12('c12.restore5', ALL, W1, 8.0, 1, 1, configs='pairs', max_views=0, max_snaps=0, copy_like=True,
         first_ops=('set_data', 'copy_like'), quick_configs=2000, tcap_t=100),
     # the whole universe, depth-bounded, two snapshots
-    C12('c12.snap', ALL, W1, 8.0, 3, 4, max_views=1, max_snaps=2, copy_like=True, T_writes=(350.0,), tcap_t=120),
+    C12('c12.snap', ALL, W1, 8.0, 3, 5, max_views=1, max_snaps=2, copy_like=True, T_writes=(350.0,), tcap_t=150),
 ]
